@@ -471,7 +471,7 @@ def monitor_c19(rep, n, pid="C19"):
                     took = sto0 - frac(h.tank.storage["volume"])
                     if took != delivered:
                         bad(c, i, f"reservoir lost {took} but {delivered} went downstream")
-                    if delivered < min(outstanding, sto0):
+                    if min(outstanding, sto0) - delivered > EPS:       # (a shortfall below FLOAT_ACCURACY is dust: arcs hand such a push back)
                         st["limited_downstream"] += 1
                         # less than required went out: only acceptable if the downstream side refused it
                         with contextlib.redirect_stdout(io.StringIO()):
